@@ -229,6 +229,9 @@ type GenOpts struct {
 	// unserialisable (a failure only where the state has to be sealed: HTTP)
 	Unsealable bool
 	NoHook     bool // some states come without a cancel hook
+	// Icept: some turns run with an emit interceptor that fails (the state
+	// either gives up on the turn's batch or retries without the interceptor)
+	Icept bool
 }
 
 // GenStreamScript draws a stream script for the given method kind
@@ -261,6 +264,9 @@ func GenStreamScript(t *simkern.Tape, nonce int64, kind string, o GenOpts) *Scri
 				st.Meta["vgi_batch_index"] = fmt.Sprint(i)
 			}
 		}
+		if o.Icept && i != failAt && t.Bool(1, 10) {
+			st.Act = "iceptretry"
+		}
 		if i == failAt {
 			acts := []string{"error", "panic", "noemit", "double", "emitpanic", "emiterror"}
 			if kind == "exchange" {
@@ -268,6 +274,9 @@ func GenStreamScript(t *simkern.Tape, nonce int64, kind string, o GenOpts) *Scri
 			}
 			if o.Unsealable {
 				acts = append(acts, "emitunsealable", "emitunsealable")
+			}
+			if o.Icept {
+				acts = append(acts, "iceptswallow")
 			}
 			st.Act = acts[t.Draw(len(acts))]
 			switch st.Act {
